@@ -36,6 +36,61 @@ import tempfile
 import uuid
 
 
+# the pid of the simulated process, while one is alive (None: the real pid).
+# os.getpid is replaced once, before cogent3 is imported (install_pid_hook), so
+# that every binding the code under test takes of it ("from os import getpid")
+# sees a new pid after a simulated restart.
+CURRENT_PID = None
+_real_getpid = os.getpid
+
+
+def _sim_getpid():
+    return CURRENT_PID if CURRENT_PID is not None else _real_getpid()
+
+
+# The SimOS whose run is in progress (None: pass everything through).  The code
+# under test may bind file-system functions at import time ("from os import
+# link, remove", "from uuid import uuid4"); install_hooks() therefore replaces
+# them once, before cogent3 is imported, by dispatchers that consult ACTIVE.
+ACTIVE = None
+_HOOKS = (
+    ("builtins", "open", "_open"), ("io", "open", "_open"), ("bz2", "_builtin_open", "_open"),
+    ("os", "mkdir", "_mkdir"), ("os", "rmdir", "_rmdir"), ("os", "unlink", "_unlink"),
+    ("os", "remove", "_unlink"), ("os", "rename", "_rename"), ("os", "replace", "_replace"),
+    ("os", "scandir", "_scandir"), ("os", "listdir", "_listdir"), ("os", "truncate", "_truncate"),
+    ("os", "link", "_link"), ("os", "symlink", "_symlink"), ("os", "open", "_os_open"),
+    ("uuid", "uuid4", "_uuid4"), ("tempfile", "_get_candidate_names", "_candidate_names"),
+)
+
+
+def _dispatcher(real, method):
+    def call(*a, **kw):
+        sim = ACTIVE
+        if sim is None:
+            return real(*a, **kw)
+        return getattr(sim, method)(*a, **kw)
+
+    call.__name__ = getattr(real, "__name__", method)
+    return call
+
+
+def install_hooks():
+    """once per process, before the code under test is imported"""
+    mods = {"builtins": builtins, "io": io, "bz2": bz2, "os": os, "uuid": uuid, "tempfile": tempfile}
+    for modname, attr, method in _HOOKS:
+        setattr(mods[modname], attr, _dispatcher(getattr(mods[modname], attr), method))
+    os.getpid = _sim_getpid
+
+
+def install_pid_hook():
+    os.getpid = _sim_getpid
+
+
+def set_pid(pid):
+    global CURRENT_PID
+    CURRENT_PID = pid
+
+
 class SimKill(BaseException):
     """the simulated process died at a gated call"""
 
@@ -57,6 +112,8 @@ _real = {
     "os.scandir": os.scandir,
     "os.listdir": os.listdir,
     "os.truncate": os.truncate,
+    "os.link": os.link,
+    "os.symlink": os.symlink,
     "os.open": os.open,
     "uuid.uuid4": uuid.uuid4,
     "tempfile._get_candidate_names": tempfile._get_candidate_names,
@@ -74,6 +131,8 @@ APPLICABLE_ERRNOS = {
     "unlink": ("EACCES", "EPERM", "EBUSY", "EIO"),
     "rmdir": ("EACCES", "EPERM", "EBUSY", "EIO"),
     "rename": ("EACCES", "EIO", "ENOSPC"),
+    "link": ("EACCES", "EPERM", "EXDEV", "ENOSPC"),
+    "symlink": ("EACCES", "EPERM", "ENOSPC"),
     "replace": ("EACCES", "EIO", "ENOSPC"),
 }
 
@@ -201,6 +260,13 @@ class SimOS:
         idx = self.ncalls
         self.ncalls += 1
         fault = self.faults.get(idx)
+        if fault is not None and fault["kind"] == "oserror" and kind == "open" and size == "r+":
+            # ZipFile(mode="a") probes with an "r+b" open and retries a failed
+            # probe as a truncating "w+b" open: one injected failure followed
+            # by a successful truncating open is not a sequence a real file
+            # system produces, so this fault is not injected
+            self.fired["skipped-r+-open"] = self.fired.get("skipped-r+-open", 0) + 1
+            fault = None
         rel = path if kind == "sql" else self.rel(path)
         tag = None
         if fault is not None:
@@ -307,6 +373,20 @@ class SimOS:
             return _real["os.replace"](src, dst)
         return _real["os.replace"](src, dst, src_dir_fd=src_dir_fd, dst_dir_fd=dst_dir_fd)
 
+    def _link(self, src, dst, *, src_dir_fd=None, dst_dir_fd=None, follow_symlinks=True):
+        if src_dir_fd is None and dst_dir_fd is None and (self.owns(src) or self.owns(dst)):
+            self.gate("link", dst, 0)
+            self.events[-1] = self.events[-1][:2] + (f"{self.rel(src)}->{self.rel(dst)}",) + self.events[-1][3:]
+            return _real["os.link"](src, dst, follow_symlinks=follow_symlinks)
+        return _real["os.link"](src, dst, src_dir_fd=src_dir_fd, dst_dir_fd=dst_dir_fd,
+                                follow_symlinks=follow_symlinks)
+
+    def _symlink(self, src, dst, target_is_directory=False, *, dir_fd=None):
+        if dir_fd is None and self.owns(dst):
+            self.gate("symlink", dst, 0)
+            return _real["os.symlink"](src, dst, target_is_directory)
+        return _real["os.symlink"](src, dst, target_is_directory, dir_fd=dir_fd)
+
     def _truncate(self, path, length):
         if self.owns(path):
             self.gate("truncate", path, length)
@@ -367,8 +447,10 @@ class SimOS:
 
     # -- install / remove -----------------------------------------------------
     def install(self):
-        if self._installed:
+        global ACTIVE
+        if self._installed or ACTIVE is not None:
             raise HarnessError("SimOS installed twice")
+        ACTIVE = self
         builtins.open = self._open
         io.open = self._open
         bz2._builtin_open = self._open
@@ -381,6 +463,8 @@ class SimOS:
         os.scandir = self._scandir
         os.listdir = self._listdir
         os.truncate = self._truncate
+        os.link = self._link
+        os.symlink = self._symlink
         os.open = self._os_open
         uuid.uuid4 = self._uuid4
         tempfile._get_candidate_names = self._candidate_names
@@ -401,8 +485,10 @@ class SimOS:
         return self
 
     def uninstall(self):
+        global ACTIVE
         if not self._installed:
             return
+        ACTIVE = None
         builtins.open = _real["builtins.open"]
         io.open = _real["io.open"]
         bz2._builtin_open = _real["bz2._builtin_open"]
@@ -415,6 +501,8 @@ class SimOS:
         os.scandir = _real["os.scandir"]
         os.listdir = _real["os.listdir"]
         os.truncate = _real["os.truncate"]
+        os.link = _real["os.link"]
+        os.symlink = _real["os.symlink"]
         os.open = _real["os.open"]
         uuid.uuid4 = _real["uuid.uuid4"]
         tempfile._get_candidate_names = _real["tempfile._get_candidate_names"]
@@ -526,7 +614,7 @@ def snapshot_tree(root) -> dict:
 
 def make_sandbox(tag="") -> str:
     base = scratch_root()
-    path = os.path.join(base, f"verif-{os.getpid()}-{tag}")
+    path = os.path.join(base, f"verif-{_real_getpid()}-{tag}")
     if os.path.exists(path):
         shutil.rmtree(path)
     _real["os.mkdir"](path)
